@@ -110,8 +110,10 @@ CLAIMED = {
               "point is immaterial to the key (trailing_zeros_immaterial), the exponent markers e/E/d/D and the "
               "marker-less Fortran form are normalised to one spelling (markers_normalised); the model is compared with "
               "the code on every generated spelling (normfloat stream) and the converter's output on respelt decks "
-              "(LIKE BUT, TR cards, surface parameters) must not change. Not proved: value preservation stated over the "
-              "exact rational value."),
+              "(LIKE BUT, TR cards, surface parameters) must not change. For plain decimals the key is proved to be sign + integer "
+              "digits + fraction without trailing zeros (normalizeFloat_plain), to denote the same number "
+              "(key_keeps_value), and equal keys to imply numerically equal densities (same_key_same_value): different "
+              "densities never share a composition. Not proved: value preservation for literals with an exponent part."),
         design_ref='§8 C09'),
     'C10': dict(
         technique='Lean 4 proof (field identities for rescale_fractions, decision logic of the material card reader) + Lean composition monitor on the written file',
